@@ -732,7 +732,9 @@ class SumGrader(SummationGraderBase):
                     varscope=varlist,
                     funcscope=funclist
                 )
-            except MITxError as error:
+            except Exception as error:  # pylint: disable=broad-except
+                # Whatever goes wrong in the author's own sum (e.g. a blank limit evaluates to
+                # nan, which has no integer value) is a problem with the configuration
                 msg = "Summation Error with author's stored answer: {}"
                 raise ConfigError(msg.format(str(error)))
 
